@@ -36,8 +36,41 @@ func custom(c color.Color) color.RGBA64 {
 	return color.RGBA64{R: uint16(g) ^ 0x1234, G: uint16(b) ^ 0x00FF, B: uint16(a) ^ 0x8001, A: uint16(r) ^ 0x0F0F}
 }
 
+// customTyped looks at the pixel's own colour type first, as a caller's function may (prism's own
+// ColorFromEncodedColor does): for the non-premultiplied and the non-RGB types it works on the stored fields, which the
+// 16-bit premultiplied form no longer has.  Outputs are valid premultiplied colours.
+func customTyped(c color.Color) color.RGBA64 {
+	switch v := c.(type) {
+	case color.NRGBA:
+		if v.A == 0 {
+			return color.RGBA64{}
+		}
+		return color.RGBA64{R: uint16(v.B), G: uint16(v.R), B: uint16(v.G), A: uint16(v.A) * 257}
+	case color.NRGBA64:
+		if v.A == 0 {
+			return color.RGBA64{}
+		}
+		m := uint32(v.A) + 1
+		return color.RGBA64{R: uint16(uint32(v.G) % m), G: uint16(uint32(v.B) % m), B: uint16(uint32(v.R) % m), A: v.A}
+	case color.YCbCr:
+		return color.RGBA64{R: uint16(v.Cr) * 257, G: uint16(v.Y) * 257, B: uint16(v.Cb) * 257, A: 0xFFFF}
+	case color.NYCbCrA:
+		a := uint16(v.A) * 257
+		return color.RGBA64{R: uint16(v.Cr) * uint16(v.A), G: uint16(v.Y) * uint16(v.A), B: uint16(v.Cb) * uint16(v.A), A: a}
+	case color.CMYK:
+		return color.RGBA64{R: uint16(v.K) * 257, G: uint16(v.C) * 257, B: uint16(v.M)*256 + uint16(v.Y), A: 0xFFFF}
+	case color.Gray:
+		return color.RGBA64{R: uint16(v.Y) * 257, G: 0x00FF, B: uint16(v.Y), A: 0xFFFF}
+	case color.Gray16:
+		return color.RGBA64{R: v.Y, G: v.Y >> 3, B: ^v.Y, A: 0xFFFF}
+	case color.Alpha:
+		return color.RGBA64{R: uint16(v.A), G: 0, B: uint16(v.A) * 257, A: uint16(v.A) * 257}
+	}
+	return custom(c)
+}
+
 var Transforms = func() []string {
-	t := []string{"custom"}
+	t := []string{"custom", "custom-typed"}
 	for _, s := range sp.Spaces {
 		t = append(t, s.Name+".Linearise", s.Name+".Encode")
 	}
@@ -47,6 +80,9 @@ var Transforms = func() []string {
 func resolve(name string) (apply func(draw.Image, image.Image, int), perColour func(color.Color) color.RGBA64) {
 	if name == "custom" {
 		return func(d draw.Image, s image.Image, p int) { linear.TransformImageColor(d, s, p, custom) }, custom
+	}
+	if name == "custom-typed" {
+		return func(d draw.Image, s image.Image, p int) { linear.TransformImageColor(d, s, p, customTyped) }, customTyped
 	}
 	for i := range sp.Spaces {
 		s := &sp.Spaces[i]
@@ -369,7 +405,7 @@ func TestC10(t *testing.T) {
 		fmt.Println("REPLAY case passed")
 		return
 	}
-	ev.Rule("fresh-process probes: the first transform of a process for 5 type pairs x parallelism {1,2,3,6,7,16,300} (each once as the first action of a process, generated orders, environment presets) and a soak of 140000 seven-pixel RGBA64 transforms in which rare colours recur exactly 255..257 and 65535..65537 calls later under another transform (first among very few colours, then among all-new ones), checked against the per-colour function (as a process's first action, and again at the end of the run); rapid: source of every standard image type (incl. opaque wrapper, sub-images, negative origins, empty/1xN/Nx1, a quarter with 10..40 rows), destination of every standard draw.Image type (RGBA64, RGBA, NRGBA, NRGBA64, Gray, Gray16, Alpha, Alpha16, CMYK, Paletted) or an opaque wrapper with its own origin, size = source + (0..3, 0..3) (a fifth with exactly the source's bounds, half of those of the source's type), optionally a sub-image of a sentinel-filled parent; parallelism in {1,2,3,7,16,rows+5}; transform in {Linearise,Encode} x 4 spaces + TransformImageColor with an injective channel-rotating function; in-place for the draw.Image types; an eighth of the cases use two disjoint sub-images of one canvas as source and destination. Also a fixed cross product of source types x destination types x parallelism x transforms on awkward geometry, and banners (1-3 rows of 129..20000 pixels, widths around powers of two, sub-image destinations, in-place; a tenth of the rapid images and a sweep over every type pair). Oracle: Set()-based model on a clone, whole parent buffers compared byte for byte. non-trivial = distinct case with differing origins, a sub-image, parallelism>1 with >=2 rows, a concrete fast path, or in-place")
+	ev.Rule("fresh-process probes: the first transform of a process for 5 type pairs x parallelism {1,2,3,6,7,16,300} (each once as the first action of a process, generated orders, environment presets) and a soak of 140000 seven-pixel RGBA64 transforms in which rare colours recur exactly 255..257 and 65535..65537 calls later under another transform (first among very few colours, then among all-new ones), checked against the per-colour function (as a process's first action, and again at the end of the run); rapid: source of every standard image type (incl. opaque wrapper, sub-images, negative origins, empty/1xN/Nx1, a quarter with 10..40 rows), destination of every standard draw.Image type (RGBA64, RGBA, NRGBA, NRGBA64, Gray, Gray16, Alpha, Alpha16, CMYK, Paletted) or an opaque wrapper with its own origin, size = source + (0..3, 0..3) (a fifth with exactly the source's bounds, half of those of the source's type), optionally a sub-image of a sentinel-filled parent; parallelism in {1,2,3,7,16,rows+5}; transform in {Linearise,Encode} x 4 spaces + TransformImageColor with an injective channel-rotating function and with a function that looks at the pixel's own colour type first; in-place for the draw.Image types; an eighth of the cases use two disjoint sub-images of one canvas as source and destination. Also a fixed cross product of source types x destination types x parallelism x transforms on awkward geometry, and banners (1-3 rows of 129..20000 pixels, widths around powers of two, sub-image destinations, in-place; a tenth of the rapid images and a sweep over every type pair). Oracle: Set()-based model on a clone, whole parent buffers compared byte for byte. non-trivial = distinct case with differing origins, a sub-image, parallelism>1 with >=2 rows, a concrete fast path, or in-place")
 	ev.Assume("the per-colour functions themselves are checked by C01/C02/C14; destination at least as large as the source (the documented precondition)")
 	ev.ProbeOrders(ev.Pick(1, 10))
 	// fixed cross product
